@@ -3,6 +3,7 @@
   the C08 metamorphic verdict computed by the harness on the implementation alone.
 -/
 import Driver.LedgerOracle
+import Driver.SflOracle
 import AcbModel.App.Pipeline
 namespace Driver
 open Acb
@@ -169,6 +170,14 @@ def runApp (c : Case) : Res :=
         let cmpOne := fun (s : Nat) (x : ImplSec) (txs : List Tx) (ds : List Delta) (fail : Option Failure) =>
           let modelOutcome := match fail with | none => "ok" | some (.err _) => "err" | some (.panic _) => "panic"
           let os := ledgerOracles dflt (initOf s) txs x.deltas (x.outcome == "ok")
+          -- the superficial-loss rule, evaluated declaratively on the implementation's rows
+          let os := if os.isEmpty && x.outcome == "ok" && !nearThreshold ds then
+                      sflOracle dflt (initOf s) (alignedRows txs x.deltas) else os
+          let os := if os.isEmpty && x.outcome == "err" && (x.msg.splitOn "max allowed discrepancy").length > 1 then
+                      let done := alignedRows txs x.deltas
+                      let k := (done.filter (fun (_, y) => !y.gen)).length
+                      sflTolRejectOracle dflt (initOf s) (done.map (·.1) ++ txs.drop k) done.length
+                    else os
           if nearThreshold ds then ({ sec := s, diff := none, oracles := [], ds := ds, fail := fail } : SecCmp)
           else if modelOutcome ≠ x.outcome then
             { sec := s, diff := some ("dk=outcome", s!"security {s}: outcome model={modelOutcome}({match fail with | some f => failureName f | none => ""}) impl={x.outcome} {x.msg}"), oracles := os, ds := ds, fail := fail }
